@@ -195,6 +195,14 @@ def report_unnormalised(rep, rule, e, what, cfg=''):
         rep.fail(rule, e.where, 'what is added to the problem is a constraint: PuLP builds one from <=, >= and == only %s' % cfg,
                  got='%s between LP expressions' % {'Lt': '<', 'Gt': '>', 'NotEq': '!='}[e.strict], want='<=, >= or ==', construct='strict / != comparison added as a constraint', loc=e.loc)
     else:
+        # a per-agent constraint that reads what a variable was LEFT WITH by an earlier loop (its last iteration's value)
+        stale = [x for x in walk(e.eff.cmp) if x[0] == 'stale'] if getattr(e.eff, 'cmp', None) else []
+        loops_here = [c_.lid for c_, _ in e.ctx if c_.kind == 'for']
+        if stale and loops_here and stale[0][2] not in loops_here:
+            rep.fail(rule, e.where, 'every quantity of a per-agent constraint belongs to that agent %s' % cfg,
+                     got='%s is the value left over from the last iteration of an earlier loop' % show(stale[0][1])[:100], want='the value of the agent the constraint is for',
+                     construct='constraint built from a stale loop value', loc=e.loc)
+            return
         rep.inconclusive(rule, e.where, what, got=e.err, loc=e.loc)
 
 
